@@ -65,7 +65,7 @@ def run_rp(ctx, plans, per_plan, large=()):
                 continue
             sigs = pt.vary(pt.make_sigs(rng, (T,)), k + k // 4)
             shared = k % 2 == 0
-            kwargs = pt.kw_variant(rng, k) if shared else [pt.kw_variant(rng, k + 7 * i) for i in range(T)]
+            kwargs = pt.kw_variant(rng, k) if shared else pt.with_default_entry([pt.kw_variant(rng, k + 7 * i) for i in range(T)], k)
             if not shared:
                 for i, kw_i in enumerate(kwargs):
                     if i % 3 == 1:
@@ -89,7 +89,7 @@ def run_rp(ctx, plans, per_plan, large=()):
     for T, W in large:
         sigs = pt.vary(pt.make_sigs(rng, (T,), n=96), k)
         shared = k % 3 == 2
-        kwargs = pt.kw_variant(rng, k) if shared else [pt.kw_variant(rng, k + 5 * i) for i in range(T)]
+        kwargs = pt.kw_variant(rng, k) if shared else pt.with_default_entry([pt.kw_variant(rng, k + 5 * i) for i in range(T)], k)
         if not shared:
             for i, kw_i in enumerate(kwargs):
                 if i % 3 == 1:
